@@ -146,6 +146,24 @@ def signature(stderr):
     return kind + "|" + "|".join(frames)
 
 
+READER_FILES = ("ESmry.cpp", "ExtESmry.cpp", "EGrid.cpp", "ERft.cpp", "EInit.cpp", "ERst.cpp", "EclUtil.cpp", "EclFile.cpp", "TimeService.cpp")
+
+
+def finding_key(label, sig):
+    """key under which a crash signature is looked up in known_findings.jsonl.
+    Deck side: the full signature (sanitizer kind + top two frames inside /repo).
+    Result-file side: the readers take counts, indices and sizes from the file without validating them, which
+    shows up as dozens of sanitizer kinds per reader; the recorded findings are therefore per reader source file
+    (the call site's file), so that a crash in any other file is still reported."""
+    if label == "result-files":
+        parts = sig.split("|")
+        if len(parts) > 1 and "@" in parts[1]:
+            f = parts[1].split("@")[-1]
+            if f in READER_FILES:
+                return "result-file-reader:" + f
+    return sig
+
+
 class C20(Check):
     ID = "C20"
     PROBE = None
@@ -315,8 +333,9 @@ class C20(Check):
             if "out-of-memory" in sig or "allocation-size-too-big" in sig:
                 labels["oom-artifacts"] = labels.get("oom-artifacts", 0) + 1
                 continue        # resource exhaustion on huge declared sizes: counted, not a violation (see ASSUMPTIONS)
-            if sig in knownsigs:
-                seen_known.add(sig)
+            if finding_key(tgt[0], sig) in knownsigs:
+                seen_known.add(finding_key(tgt[0], sig))
+                labels["known-crash-signatures-seen"] = labels.get("known-crash-signatures-seen", 0) + 1
                 continue
             if sig in reported:
                 continue
